@@ -84,17 +84,18 @@ type slotVal struct {
 }
 
 type world struct {
-	spec   *RunSpec
-	slots  []slotVal
-	msgs   [maxChans][maxMsgs]slotVal
-	word   [maxChans][maxMsgs]uint32
-	filled [maxChans][maxMsgs]bool // reference world only
-	res    [][]opResult
-	iso    [][]opResult // reference world only
-	dirty  [][]uintptr  // per task: pointers of XR packets on which an XR-reaching Marshal was issued
-	conc   bool
-	fired  [maxTasks]faultCount
-	dead   bool
+	spec    *RunSpec
+	slots   []slotVal
+	msgs    [maxChans][maxMsgs]slotVal
+	word    [maxChans][maxMsgs]uint32
+	filled  [maxChans][maxMsgs]bool // reference world only
+	res     [][]opResult
+	iso     [][]opResult // reference world only
+	dirty   [][]uintptr  // per task: pointers of XR packets on which an XR-reaching Marshal was issued
+	conc    bool
+	planned [maxChans][maxMsgs]bool // a send to this position exists in the (possibly minimised) programs
+	fired   [maxTasks]faultCount
+	dead    bool
 }
 
 type faultCount struct {
@@ -113,6 +114,13 @@ func newWorld(s *RunSpec, conc bool) *world {
 		w.res[t] = make([]opResult, len(s.Tasks[t]))
 		if !conc {
 			w.iso[t] = make([]opResult, len(s.Tasks[t]))
+		}
+	}
+	for t := range s.Tasks {
+		for i := range s.Tasks[t] {
+			if op := &s.Tasks[t][i]; op.K == opSend && op.Ch >= 0 && op.Ch < maxChans && op.Idx >= 0 && op.Idx < maxMsgs {
+				w.planned[op.Ch][op.Idx] = true
+			}
 		}
 	}
 	for _, o := range s.Objects {
@@ -856,6 +864,10 @@ func (w *world) label(op *Op, in *slotVal) int32 {
 	return int32(int(op.K)*(numKinds+1) + k)
 }
 
+func (w *world) sendPlanned(op *Op) bool {
+	return op.Ch >= 0 && op.Ch < maxChans && op.Idx >= 0 && op.Idx < maxMsgs && w.planned[op.Ch][op.Idx]
+}
+
 var noSlot = slotVal{}
 
 // runTask is the body of one simulated caller thread (concurrent world).
@@ -865,10 +877,16 @@ func (w *world) runTask(t int, wg *sync.WaitGroup) {
 	prog := w.spec.Tasks[t]
 	for i := range prog {
 		op := &prog[i]
+		if op.K == opNone || (op.K == opRecv && !w.sendPlanned(op)) {
+			// entry disabled by the minimiser, or a recv whose send was removed: no yield, no effect
+			w.res[t][i] = opResult{done: true, skipped: true}
+			continue
+		}
 		var in *slotVal = &noSlot
 		if op.A >= 0 && op.A < len(w.slots) {
 			in = &w.slots[op.A]
 		}
+		schedBeginOp(t, i)
 		schedSetLabel(t, w.label(op, in))
 		switch op.K {
 		case opSend:
@@ -957,6 +975,13 @@ func runReference(s *RunSpec) *world {
 				var in *slotVal = &noSlot
 				if op.A >= 0 && op.A < len(w.slots) {
 					in = &w.slots[op.A]
+				}
+				if op.K == opNone || (op.K == opRecv && !w.sendPlanned(op)) {
+					w.res[t][i] = opResult{done: true, skipped: true}
+					w.iso[t][i] = opResult{done: true, skipped: true}
+					pc[t]++
+					progress = true
+					continue
 				}
 				if op.K == opRecv && op.Ch < maxChans && op.Idx < maxMsgs && !w.filled[op.Ch][op.Idx] {
 					break
